@@ -143,6 +143,18 @@ def gen(rng, tier):
         smug = hx("GET /n201 HTTP/1.1\r\n\r\n")
         # the "body" starts with something that looks like a request
         cases.append("S 100 ok %d,100000 %d %s+%s+g%d,%d" % (hlen, rng.choice([20, 60]), parts[0], smug, L - 22, k + 7))
+    # Content-Length values that are not 1*DIGIT (empty, blank, signed, spaced, hex, list, beyond u64) in front of bytes that
+    # look like requests: the message is refused and nothing behind it is served
+    for v in ("", " ", "   ", "+5", "-0", "5 5", "0x5", "5,5", "1e1", "18446744073709551616", "5;", "\t"):
+        raw = "POST /n200 HTTP/1.1\r\nContent-Length:%s\r\n\r\nGET /n201 HTTP/1.1\r\n\r\n" % v
+        follow = "+".join(req("GET", "/n200"))
+        cases.append("D 100 ok %s+%s" % (hx(raw), follow))
+        cases.append("D 100 ok %s+%s+%s" % ("+".join(req("GET", "/n404")) if False else "+".join(req("GET", "/n201")), hx(raw), follow))
+        cases.append("S 100 ok 0 0 %s+%s" % (hx(raw), follow))
+    # an exchange that takes more than five seconds (slow handler), then the next request on the same connection --
+    # pipelined behind it, and sent only after the slow answer arrived: every request gets its run and its answer
+    for ms in ((5300,) if tier == "quick" else (5300, 10500, 31000)):
+        cases.append("S 100 ok 0 0 %s" % "+".join(req("GET", "/w%d" % ms) + req("GET", "/n201") + req("GET", "/n200")))
     # full server: delivery schedules and panics
     ns = 40 if tier == "quick" else 2000
     for _ in range(ns):
@@ -162,7 +174,8 @@ def corr_equal(impl, model):
     receive queue (the kernel answers RST; the harness marks such transcripts with reset=1): then what the client
     received must be a prefix of the model's transcript; everything else is compared exactly."""
     # mode B prints whether the scenario was really reached (a file existed, the slow handler ran): not compared
-    impl = " ".join(t for t in impl.split(" ") if not t.startswith(("hadfile=", "slow=")))
+    # mode N: most= (files seen at once) is not compared; alike=1 (every client was served alike) is what is expected
+    impl = " ".join(t for t in impl.split(" ") if not t.startswith(("hadfile=", "slow=", "most=")) and t != "alike=1")
     if impl == model:
         return True
     if " reset=1" not in impl:
